@@ -26,6 +26,9 @@ pub struct Out {
     pub hist: BTreeMap<String, u64>,
     pub samples: Vec<String>,
     pub notes: BTreeMap<String, String>,
+    /// C11 panic sweep: keep only `D` and `J nopanic` lines of the sub-run, count the rest
+    pub sweep: bool,
+    pub swept: u64,
 }
 
 impl Out {
@@ -39,11 +42,20 @@ impl Out {
             hist: BTreeMap::new(),
             samples: Vec::new(),
             notes: BTreeMap::new(),
+            sweep: false,
+            swept: 0,
         }
     }
     /// one request line and the implementation's answer
     pub fn line(&mut self, op: &str, ans: &str) {
         debug_assert!(!op.contains('\n') && !ans.contains('\n'));
+        if self.sweep && !(op.starts_with("D ") || op.starts_with("J nopanic")) {
+            // every swept line is one (or more) library call made under catch_unwind
+            self.swept += 1;
+            let key = format!("swept {}", op.split(' ').take(2).collect::<Vec<_>>().join(" "));
+            *self.hist.entry(key).or_insert(0) += 1;
+            return;
+        }
         writeln!(self.ops, "{}", op).unwrap();
         writeln!(self.imp, "{}", ans).unwrap();
         self.n_lines += 1;
